@@ -49,28 +49,43 @@ class DocumentMapper:
         self._build_map()
 
     def _build_map(self):
+        """
+        Mirrors ingest: parts, and blocks inside a container, are *joined* by a blank line
+        ("\n\n".join); an empty part or an empty table contributes nothing, an empty paragraph does.
+        """
         current_offset = 0
         self.spans = []
         self.full_text = ""
 
+        emitted_part = False
         for part in iter_document_parts(self.doc):
-            current_offset = self._map_blocks(part, current_offset)
-
-            # Add part separator if needed, or rely on block separators
-            if self.spans and self.spans[-1].text != "\n\n":
+            mark = (len(self.spans), len(self.full_text))
+            start = current_offset
+            if emitted_part:
                 self._add_virtual_text("\n\n", current_offset, None)
                 current_offset += 2
-
-        # Cleanup trailing newlines
-        while self.spans and self.spans[-1].text == "\n\n":
-            self.spans.pop()
-            self.full_text = self.full_text[:-2]
+            after_sep = current_offset
+            current_offset = self._map_blocks(part, current_offset)
+            if current_offset == after_sep:
+                # empty part: take the separator back
+                del self.spans[mark[0] :]
+                self.full_text = self.full_text[: mark[1]]
+                current_offset = start
+            else:
+                emitted_part = True
 
     def _map_blocks(self, container, offset: int) -> int:
         current = offset
+        emitted_block = False
+        prev_paragraph: Optional[Paragraph] = None
 
         for item in iter_block_items(container):
             if isinstance(item, Paragraph):
+                if emitted_block:
+                    # Separator between blocks; it belongs to the block it follows
+                    self._add_virtual_text("\n\n", current, prev_paragraph)
+                    current += 2
+
                 # FIX: Include paragraph prefix (e.g. "# ") in the mapper
                 prefix = get_paragraph_prefix(item)
                 if prefix:
@@ -78,17 +93,25 @@ class DocumentMapper:
                     current += len(prefix)
 
                 current = self._map_paragraph_content(item, current)
-
-                # Separator between paragraphs
-                self._add_virtual_text("\n\n", current, item)
-                current += 2
+                emitted_block = True
+                prev_paragraph = item
 
             elif isinstance(item, Table):
-                current = self._map_table(item, current)
-                # Separator after table
-                if self.spans and self.spans[-1].text != "\n\n":
-                    self._add_virtual_text("\n\n", current, None)
+                mark = (len(self.spans), len(self.full_text))
+                start = current
+                if emitted_block:
+                    self._add_virtual_text("\n\n", current, prev_paragraph)
                     current += 2
+                after_sep = current
+                current = self._map_table(item, current)
+                if current == after_sep:
+                    # a table without any text is skipped by the reader
+                    del self.spans[mark[0] :]
+                    self.full_text = self.full_text[: mark[1]]
+                    current = start
+                else:
+                    emitted_block = True
+                    prev_paragraph = None
 
         return current
 
